@@ -12,7 +12,7 @@ from mc.props import kcommon
 ALPHA = ("ins1", "bulk2", "mix", "ups", "rep", "repl", "del", "delx", "get", "mkB2", "insB2", "delB2", "badbulk", "staleB2bulk", "clock+5", "clock+6", "clock+86403")
 BOUNDS = {
     "quick": {"sqlite": list(ALPHA), "depth": "all histories of <= 7 operations (dedup on canonical state); thorough runs to fixpoint", "initial_state": "bucket B1 with 2 single-inserted events, flushed", "real_time_trace": "insert, sleep 11.5 s of wall-clock, insert -> must be durable (validates the virtual clock against the real one)"},
-    "thorough": {"plus": "clock+3600, bulk49/50/51"},
+    "thorough": {"plus": "ups2, clock+3600, bulk51; BFS to fixpoint (state cap 150 000 / 25 min wall cap, reported if hit)"},
 }
 RULE = (
     "BFS to fixpoint over histories of event writes, reads, bucket ops and clock steps (+5, +6 virtual seconds: elapsed 10 = no flush, 11 = grey, >= 12 = must flush), deduplicated as in C06; 'previous flush' = latest of (store open, last COMMIT seen on the connection, last operation return at which nothing was pending); "
@@ -26,7 +26,7 @@ ASSUMPTIONS = [
 
 def configs(ctx):
     if ctx.thorough:
-        return [{"name": "sqlite/clock", "backend": "sqlite", "alphabet": ALPHA + ("ups2", "clock+1", "clock+3600", "bulk49", "bulk51"), "max_states": 200000}]
+        return [{"name": "sqlite/clock", "backend": "sqlite", "alphabet": ALPHA + ("ups2", "clock+3600", "bulk51"), "max_states": 150000, "cap_s": 1500}]
     return [{"name": "sqlite/clock", "backend": "sqlite", "alphabet": ALPHA, "max_depth": 7}]
 
 
